@@ -1167,6 +1167,38 @@ run_kasumi(IMB_MGR *m, IMB_MGR *bm, const int sub, int n, uint64_t *st)
         if (sub == KA_3 || sub == KA_4) /* one common length */
                 for (int i = 1; i < n; i++)
                         len[i] = len[0];
+        if (sub == KA_2) {
+                /* the two-packet routine consumes the last common key-stream block with one ladder per packet:
+                 * aim at the relations between the two lengths (equal, one the 8-byte round-up of the other, one
+                 * block apart), also for short packets */
+                const uint64_t r = imbh_splitmix64(st);
+
+                if (r & 1)
+                        len[0] = 1 + (uint32_t) ((r >> 8) % 48);
+                switch ((r >> 1) & 7) {
+                case 0:
+                        len[1] = (len[0] + 7) & ~7u;
+                        break;
+                case 1:
+                        len[1] = len[0];
+                        len[0] = (len[1] + 7) & ~7u;
+                        break;
+                case 2:
+                        len[1] = len[0];
+                        break;
+                case 3:
+                        len[1] = len[0] + 8;
+                        break;
+                case 4:
+                        len[1] = ((len[0] + 7) & ~7u) + 8;
+                        break;
+                default:
+                        break;
+                }
+                for (int i = 0; i < 2; i++)
+                        if (len[i] < 1 || len[i] > KASUMI_MAX_BYTES)
+                                len[i] = 16;
+        }
         case_lens(len, n);
         for (int i = 0; i < n; i++) {
                 const uint8_t *key = xrand(st, 16);
